@@ -186,10 +186,10 @@ class SetItem(Operation):
                     # for those elements) and propagate only the corresponding elements from grad
 
                     first_inds = (len(sub_sel) - 1) - first_inds
-                    mask = np.zeros_like(sub_sel)
-                    mask[first_inds] = 1
-                    mask = mask.reshape(grad_sel.shape)
-                    grad_sel *= mask
+                    unset = np.ones(len(sub_sel), dtype=bool)
+                    unset[first_inds] = False
+                    # assign rather than scale: 0 * nan (or inf) is nan
+                    grad_sel[unset.reshape(grad_sel.shape)] = 0
 
             # handle the edge case of "projecting down" on setitem. E.g:
             # x = Tensor([0, 1, 2])
